@@ -11,8 +11,62 @@ RULE = ("as C03 with deeper trees (three levels in 70% of the cases), several st
         "instantiation order, the field each reference resolves to (variables are named by full member path in every lowered "
         "formula), rand-set membership by path, used flags, which sub-object blocks are active")
 
+def subclass_element_witness(ck, tier, cases):
+    """F64: a list element that is an instance of a subclass of the list's template type"""
+    if cases is not None:
+        return
+    import solvelib as S
+    S.install()
+    import vsc
+
+    @vsc.randobj
+    class Item:
+        def __init__(self):
+            self.a = vsc.rand_uint8_t()
+            self.z = vsc.rand_uint8_t()
+
+    @vsc.randobj
+    class Derived(Item):
+        def __init__(self):
+            super().__init__()
+            self.m = vsc.rand_uint8_t()
+
+    @vsc.randobj
+    class U:
+        def __init__(self):
+            self.items = vsc.rand_list_t(Item())
+            self.items.append(Item())
+            self.items.append(Derived())
+
+        @vsc.constraint
+        def c(self):
+            self.items[1].z == 7
+    case = {"classes": "Item: a, z; Derived(Item): + m; U: items = rand_list_t(Item()) holding [Item(), Derived()]",
+            "constraint": "self.items[1].z == 7"}
+    ck.count("known_finding_witnesses")
+    known = [k for k in ck.known if k["id"] == "F64" and k.get("status") == "known"]
+    bad = None
+    try:
+        for sd in range(6):
+            u = U()
+            u.set_randstate(vsc.RandState.mkFromSeed(sd))
+            with common.quiet():
+                u.randomize()
+            if int(u.items[1].z) != 7:
+                bad = {"a": int(u.items[1].a), "z": int(u.items[1].z), "m": int(u.items[1].m)}
+                break
+    except Exception as e:
+        ck.oracle_fail("internal-exception:%s:subclass-element" % type(e).__name__, case, str(e)[:200], "a normal return with items[1].z == 7")
+        return
+    if bad is not None:
+        if known and bad["m"] == 7:
+            ck.oracle_fail(known[0]["signature"], case, bad, known[0]["what"])
+        else:
+            ck.oracle_fail("reference-denotes-wrong-field:subclass-element", case, bad, "items[1].z == 7")
+
+
 if __name__ == "__main__":
     common.run_main(lambda: worldcheck.standard_main(
         "C08", ["C08"], THEOREMS, {"nops": 6, "deep": 0.7, "derive": 0.3}, 150, 6000,
         ["as C01 for the solve itself", "lists of objects are generated: elements reached by index, and foreach over the list with iterator and/or index"],
-        RULE, keep=lambda w: not w.startswith("callbacks")))
+        RULE, keep=lambda w: not w.startswith("callbacks"), extra_run=subclass_element_witness))
